@@ -21,7 +21,7 @@ func nativeTimeout() time.Duration {
 			return time.Duration(ms) * time.Millisecond
 		}
 	}
-	return 8 * time.Second
+	return 4 * time.Second
 }
 
 type replayFile struct {
@@ -272,7 +272,7 @@ func runNative(name string, h func(), report bool) (outcome string) {
 	case timedOut:
 		outcome = "timeout"
 	}
-	if !report && outcome != "fail" && outcome != "panic" {
+	if !report && outcome != "fail" && outcome != "panic" && outcome != "timeout" {
 		return outcome
 	}
 	res := map[string]interface{}{"harness": name, "outcome": outcome, "failures": Failures(), "panic": panicMsg, "observed": Observations(),
@@ -338,7 +338,7 @@ func RunBatch(harnesses map[string]func()) {
 		}
 		for a := 0; a < attempts; a++ {
 			last := a == attempts-1
-			if out := runNative(c.ID, h, last); out == "fail" || out == "panic" {
+			if out := runNative(c.ID, h, last); out == "fail" || out == "panic" || out == "timeout" {
 				break
 			}
 		}
